@@ -92,7 +92,7 @@ func c16applied(c *Ctx) {
 	r := c.R
 	// (c) netDialWithDeadline closure
 	{
-		fn := c.fn("netDialWithDeadline$1")
+		fn := c.returnedFunc("netDialWithDeadline")
 		ok, why := true, "SetDeadline(deadline) with nil result precedes returning the dialed connection"
 		n := 0
 		c.explore("C16.deadline-applied", fn, core.Opts{NonNilOnNilErr: true}, func(p *core.Path) {
@@ -104,7 +104,7 @@ func c16applied(c *Ctx) {
 			for i := range p.Events {
 				ev := &p.Events[i]
 				if name, _, is := deadlineCall(ev); is && name == "SetDeadline" && strip(ev.Recv) == strip(p.Results[0]) {
-					if a := ev.Args[0]; a.Kind == core.KFree || (a.Kind == core.KLoad && a.Args[0].Kind == core.KFree) {
+					if a := ev.Args[0]; isCapturedState(fn, a) {
 						e := errOf(p.X, ev.Result)
 						if hasLit(p, len(p.Lits), true, func(t *core.Term) bool { return isEqNil(t, func(y *core.Term) bool { return y == e }) }) {
 							set = true
@@ -196,6 +196,34 @@ func c16applied(c *Ctx) {
 				n++
 				dial := &p.Events[len(p.Events)-1]
 				dialCtx = dial.Instr.(*ssa.Call).Call.Args[0]
+				// the dial call may sit in a helper extracted from DialContext: map its parameter back to the
+				// argument DialContext passes
+				for hops := 0; hops < 3; hops++ {
+					prm, isPrm := dialCtx.(*ssa.Parameter)
+					if !isPrm || prm.Parent() == fn {
+						break
+					}
+					idx := -1
+					for k, q := range prm.Parent().Params {
+						if q == prm {
+							idx = k
+						}
+					}
+					var arg ssa.Value
+					for _, g := range c.P.FuncList {
+						for _, b := range g.Blocks {
+							for _, in := range b.Instrs {
+								if ci, isCall := in.(ssa.CallInstruction); isCall && ci.Common().StaticCallee() == prm.Parent() && idx >= 0 && idx < len(ci.Common().Args) {
+									arg = ci.Common().Args[idx]
+								}
+							}
+						}
+					}
+					if arg == nil {
+						break
+					}
+					dialCtx = arg
+				}
 				ctx := dial.Args[0]
 				var fnCtx *core.Term
 				for i := range p.Events {
